@@ -26,6 +26,8 @@ theorem accepted_is_derivable (ev : Env) (st : Bool) (s : Str) (d : IDoc) (rest 
       · cases h
       split at h
       · cases h
+      split at h
+      · cases h
       · next d' hd2 =>
         split at h
         · cases h
@@ -227,6 +229,8 @@ theorem spec_accepts_only_strict (s : Str) (d : IDoc) (rest : Str) (h : parseDoc
   · cases h
   · cases h
   · split at h
+    · cases h
+    split at h
     · cases h
     split at h
     · cases h
